@@ -1,4 +1,6 @@
 import FitProps.DecoderApiHistLemmas
+import FitProps.DecoderApiIndepLemmas
+import FitProps.DecoderApiDefaultLemmas
 import FitProps.DecoderApiTailLemmas
 /-!
 # C07 — A sequence decodes the same whatever the decoder did before
@@ -6,12 +8,20 @@ import FitProps.DecoderApiTailLemmas
 Specification: `Fit.DecApi.specRun` (FitModel/DecoderApiSpec.lean) says what every API call of a history must return
 **using new decoders only** — what `Decode` / `Discard` / `PeekFileHeader` / `PeekFileId` return for the sequence at the
 current position is what a decoder just created on exactly those bytes returns: a function of the sequence's bytes and
-the options. The theorems relate the decoder object (`Fit.DecApi.run`, the model the driver executes against the real
-code) to that specification for **every** history, every byte stream, every option set and every factory.
+the options. **Where the next sequence starts does not depend on the operation that consumed the current one**: the
+extent of a sequence is fixed by the protocol (`seqExtent`: header + declared data size + 2 CRC bytes). The theorems
+relate the decoder object (`Fit.DecApi.run`, the model the driver executes against the real code) to that specification
+for every history, every byte stream, every option set and every factory.
+
+OPEN FINDING KF-C07-4: `Decode` lets the last record of a sequence run past the data size its header declares (and reads
+the CRC after that record), `Discard` / `CheckIntegrity` skip exactly the declared size, `Discard` after a `PeekFileId`
+that already read past it skips only two more bytes. After such a predecessor the decoder's answer for the NEXT
+sequence depends on how the predecessor was consumed — the full statement `C07_history_indep_full` is FALSE
+(`C07_full_fails`), and `C07_history_indep_partial` carries the decidable hypothesis `NoOverrun`.
 
 PROPERTY THEOREMS (audited by ./check): C07_decode_from_clean, C07_boundary_clean, C07_reset_is_new,
-C07_integrity_check_is_new, C07_history_indep, C07_rejected_everywhere, C07_decode_ignores_tail, C07_peek_transparent,
-C07_former_witnesses
+C07_integrity_check_is_new, C07_history_indep_partial, C07_full_fails, C07_overrun_depends_on_op,
+C07_rejected_everywhere_partial, C07_decode_ignores_tail, C07_peek_transparent, C07_former_witnesses, C07_default_config_partial
 -/
 namespace Fit.C07
 open Fit.DecApi
@@ -80,7 +90,7 @@ theorem stepDiscard_clean (s : St) (h : endsSequence (stepDiscard s).2.1 = true)
   | none =>
     cases hr : headerOnce (noChk s) with
     | ok s1 => rw [stepDiscard_eq s s1 he hr] at h ⊢; exact discardTail_clean _ _ h
-    | err e => have := (stepDiscard_header_err s he e hr).1; rw [this] at h; cases h
+    | err e => have := (SameOp.stepDiscard_header_err s he e hr).1; rw [this] at h; cases h
     | panic =>
       have : stepDiscard s = ({ (failHeader (noChk s) (Res.panic : Res St)).1 with
           o := { (failHeader (noChk s) (Res.panic : Res St)).1.o with chk := s.o.chk } }, .panic, []) := by
@@ -205,17 +215,33 @@ def Agree (o : Opts) (bytes : List Nat) (ops : List Op) : Prop :=
 instance (o : Opts) (bytes : List Nat) (ops : List Op) : Decidable (Agree o bytes ops) := by
   unfold Agree; infer_instance
 
-/-- **History independence** (the property, at full strength): for every byte stream, every option set and factory, and
+/-- no operation of the history lies in the class of KF-C07-4: none follows (without a `Reset` / `CheckIntegrity` + re-seek in
+between) a sequence that a new decoder performing the consuming operation leaves somewhere else than at the protocol's
+end of the sequence (header + declared data size + 2), and none is the `Discard` after a `PeekFileId` whose last record ran
+past the declared data size. Decidable (`noOverrun` is a `Bool`); evaluated by the driver's `--kf`. -/
+def NoOverrun (o : Opts) (bytes : List Nat) (ops : List Op) : Prop := noOverrun (Spec.fresh o bytes) ops = true
+
+instance (o : Opts) (bytes : List Nat) (ops : List Op) : Decidable (NoOverrun o bytes ops) := by
+  unfold NoOverrun; infer_instance
+
+/-- **History independence, full statement** (the property): for every byte stream, every option set and factory, and
 every history of API calls — chained sequences decoded, discarded, peeked and then decoded or discarded, `Next`,
 integrity checks followed by the re-seek, failed decodes, contexts cancelled before or during `DecodeWithContext`, resets
 onto new readers with other options — every result the decoder object returns is the result the specification computes
-with new decoders only. Hypotheses: the streams are byte strings shorter than 4 GiB (`Decoder.cur` is a uint32) and the
-factories' components are acyclic (`FacOK`: the contract of `decoder.Factory` — the real code recurses through them).
-(Before the repair of F09 — KF-C07-2, `PeekFileId` reading past a sequence without file_id — the statement needed the
-hypothesis that no `PeekFileId` of the history does so, and was false without it.) -/
-theorem C07_history_indep (o : Opts) (bytes : List Nat) (ops : List Op) (hb : Small bytes) (hf : FacOK o.fac)
-    (hops : ∀ op ∈ ops, OpSmall op) : Agree o bytes ops := by
-  refine sim_run ops (Api.fresh o bytes) (Spec.fresh o bytes) ⟨rfl, ⟨hb, hf⟩, hb, ?_⟩ hops
+with new decoders only, **the next sequence starting at the protocol's end of the consumed one whatever consumed it**.
+FALSE on the current tree: `C07_full_fails` (KF-C07-4). -/
+def C07_history_indep_full : Prop :=
+  ∀ (o : Opts) (bytes : List Nat) (ops : List Op), Small bytes → FacOK o.fac → (∀ op ∈ ops, OpSmall op) → Agree o bytes ops
+
+/-- **History independence outside the class of KF-C07-4**: the full statement for every history in which no predecessor's
+last record overruns its declared data size (`NoOverrun`). Hypotheses besides: the streams are byte strings shorter than
+4 GiB (`Decoder.cur` is a uint32) and the factories' components are acyclic (`FacOK`: the contract of `decoder.Factory` —
+the real code recurses through them). Nothing else is excluded: in particular every `Discard` is demanded to return what a
+new decoder's `Discard` returns (the former "blind" phase of the specification is gone: it was this class). -/
+theorem C07_history_indep_partial (o : Opts) (bytes : List Nat) (ops : List Op) (hb : Small bytes) (hf : FacOK o.fac)
+    (hops : ∀ op ∈ ops, OpSmall op) (hno : NoOverrun o bytes ops) : Agree o bytes ops := by
+  refine agree_of_sameOp ops (Api.fresh o bytes) (Spec.fresh o bytes) (SameOp.Spec.fresh o bytes) (rel_toSame _) hno ?_
+  refine SameOp.sim_run ops (Api.fresh o bytes) (SameOp.Spec.fresh o bytes) ⟨rfl, ⟨hb, hf⟩, hb, ?_⟩ hops
   show (_ ∧ _)
   exact ⟨rfl, rfl⟩
 
@@ -225,6 +251,9 @@ def P : List Nat := [14, 32, 154, 82, 11, 0, 0, 0, 46, 70, 73, 84, 30, 8, 64, 0,
 def S : List Nat := [14, 32, 154, 82, 2, 0, 0, 0, 46, 70, 73, 84, 222, 98, 0, 7, 65, 194]
 def Q : List Nat := [14, 32, 154, 82, 11, 0, 0, 0, 46, 70, 73, 84, 30, 8, 64, 0, 0, 20, 0, 1, 3, 1, 2, 0, 9, 112, 213]
 def B : List Nat := [14, 32, 154, 82, 11, 0, 0, 0, 46, 70, 73, 84, 30, 8, 64, 0, 0, 0, 0, 1, 0, 1, 0, 0, 4, 84, 208]
+/-- a 25-byte sequence whose last record overruns: 12-byte header declaring 10 bytes of records, then the 11 bytes of
+`P`'s records (a definition of 9 bytes and a file_id record of 2), then the CRC of those 11 bytes -/
+def O : List Nat := [12, 32, 154, 82, 10, 0, 0, 0, 46, 70, 73, 84, 64, 0, 0, 0, 0, 1, 0, 1, 0, 0, 4, 84, 47]
 
 theorem small_of_decide (l : List Nat) (h : (l.all (· < 256) && decide (l.length < 4294967296)) = true) : Small l := by
   simp only [Bool.and_eq_true, List.all_eq_true, decide_eq_true_eq] at h
@@ -255,10 +284,44 @@ theorem C07_former_witnesses : Agree {} (Q ++ P) [.peekFileId, .decode] ∧ Agre
     Agree {} (P ++ S) [.peekFileId, .discard, .decode] ∧ Agree {} P [.peekFileId, .reset {} S, .decode] ∧
     Agree {} (P ++ B ++ S) [.checkIntegrity, .decode] := by decide
 
-/-- Non-vacuity of `C07_history_indep`: its hypotheses are met by histories with peeks, discards, an integrity check, a
+/-- Non-vacuity of `C07_history_indep_partial`: its hypotheses are met by histories with peeks, discards, an integrity check, a
 context cancelled during `DecodeWithContext` after a peek, and a reset -/
 example : Small (P ++ S) ∧ Small (P ++ B ++ S) ∧ OpSmall (.reset {} S) ∧ FacOK ([] : Factory) :=
   ⟨small_of_decide _ (by decide), small_of_decide _ (by decide), ⟨small_of_decide _ (by decide), facOK_nil⟩, facOK_nil⟩
+
+example : NoOverrun {} (P ++ B ++ S) [.checkIntegrity, .next, .peekFileId, .decode, .decode, .reset {} S, .decode] ∧
+    NoOverrun { ml := true } (P ++ P) [.peekFileId, .decodeCtxAt 0, .decode, .reset { ml := true } P, .decodeCtxAt 2, .decode] ∧
+    NoOverrun {} (Q ++ P) [.peekFileId, .discard, .decode] ∧
+    -- an overrunning sequence is outside the class as long as nothing but `Reset` / `CheckIntegrity` follows its consumption
+    NoOverrun {} (O ++ P) [.decode, .reset {} (O ++ P), .discard, .checkIntegrity, .peekFileId, .decode] := by decide
+
+/-- **The full statement is false on the current tree (KF-C07-4).** `O` declares 10 bytes of records, its second record
+ends at byte 11. On `O ++ P`: `Decode` returns `O`'s FIT and stands behind `O`'s 25 bytes, so the next `Decode` returns `P`;
+the protocol's end of `O` is byte 24, and what a new decoder returns for the bytes from there is "not a FIT file" — which
+is what `Discard, Decode` gives. The history `[Decode, Decode]` is inside the quantifier of the property and violates
+the specification; `[Discard, Decode]` meets it. -/
+theorem C07_full_fails : ¬ C07_history_indep_full := by
+  intro h
+  have : Agree {} (O ++ P) [.decode, .decode] :=
+    h {} (O ++ P) [.decode, .decode] (small_of_decide _ (by decide)) facOK_nil
+      (by intro op hop; simp only [List.mem_cons, List.mem_nil_iff, or_false, or_self] at hop; subst hop; exact trivial)
+  revert this
+  decide
+
+/-- **The defect without reference to any choice of the sequence's extent**: the same decoder configuration, the same
+stream `O ++ P`, and the result of the final `Decode` depends on how the predecessor `O` was consumed — `P`'s FIT after
+`Decode` and after `PeekFileId, Discard`, the error "not a FIT file" after `Discard`; the same with `CheckIntegrity`
+counting (it skips as `Discard` does: it finds one sequence and stops at byte 24). No specification can be met by all three. -/
+theorem C07_overrun_depends_on_op :
+    ((run (Api.fresh {} (O ++ P)) [.decode, .decode]).map (fun r => isFitOut r.1)) = [true, true] ∧
+    ((run (Api.fresh {} (O ++ P)) [.discard, .decode]).map (·.1)) = [.done, .err .notFit] ∧
+    ((run (Api.fresh {} (O ++ P)) [.peekFileId, .discard, .decode]).map (fun r => isFitOut r.1)) = [false, false, true] ∧
+    ((run (Api.fresh {} (O ++ P)) [.decode, .decode]).getLast?.map (·.1)) =
+      ((run (Api.fresh {} P) [.decode]).getLast?.map (·.1)) ∧
+    ¬ NoOverrun {} (O ++ P) [.decode, .decode] ∧ ¬ NoOverrun {} (O ++ P) [.peekFileId, .discard] ∧
+    -- `Discard` of a new decoder ends at the protocol's end: this history is inside `C07_history_indep_partial`
+    NoOverrun {} (O ++ P) [.discard, .decode] ∧ Agree {} (O ++ P) [.discard, .decode] ∧
+    ¬ Agree {} (O ++ P) [.decode, .decode] ∧ ¬ Agree {} (O ++ P) [.peekFileId, .discard, .decode] := by decide
 
 example : Agree {} (P ++ B ++ S) [.checkIntegrity, .next, .peekFileId, .decode, .decode, .reset {} S, .decode] ∧
     Agree { ml := true } (P ++ P) [.peekFileId, .decodeCtxAt 0, .decode, .reset { ml := true } P, .decodeCtxAt 2, .decode] := by decide
@@ -295,12 +358,13 @@ example : isFitOut (stepDecode (St.fresh {} P)).2.1 = true ∧ (stepDecode (St.f
 
 /-- **A sequence a new decoder rejects is rejected in every context** (corollary): if the specification says that the
 `Decode` at position `i` of the history must fail with `e` — i.e. a decoder created on exactly the bytes of that sequence
-fails with `e` — then the decoder object fails with `e` there, whatever preceded. -/
-theorem C07_rejected_everywhere (o : Opts) (bytes : List Nat) (ops : List Op) (hb : Small bytes) (hf : FacOK o.fac)
-    (hops : ∀ op ∈ ops, OpSmall op) (i : Nat) (e : Err) (evs : List Event)
+fails with `e` — then the decoder object fails with `e` there, whatever preceded (outside the class of KF-C07-4: `NoOverrun`;
+without it false — after `O` of `C07_full_fails` the position of the next sequence depends on the consuming operation). -/
+theorem C07_rejected_everywhere_partial (o : Opts) (bytes : List Nat) (ops : List Op) (hb : Small bytes) (hf : FacOK o.fac)
+    (hops : ∀ op ∈ ops, OpSmall op) (hno : NoOverrun o bytes ops) (i : Nat) (e : Err) (evs : List Event)
     (hspec : (specRun (Spec.fresh o bytes) ops)[i]? = some (some (.err e, evs))) :
     (run (Api.fresh o bytes) ops)[i]? = some (.err e, evs) := by
-  have hag := C07_history_indep o bytes ops hb hf hops
+  have hag := C07_history_indep_partial o bytes ops hb hf hops hno
   have hlen : ∀ (ops : List Op) (a : Api) (p : Spec), (run a ops).length = (specRun p ops).length := by
     intro ops
     induction ops with
@@ -320,5 +384,31 @@ theorem C07_rejected_everywhere (o : Opts) (bytes : List Nat) (ops : List Op) (h
   have := hag _ hmem _ hspec
   rw [List.getElem?_eq_getElem hi']
   exact congrArg some this
+
+/-! ### the decoder's default configuration -/
+
+/-- **History independence of the decoder's DEFAULT configuration** — `decoder.New(r)`: the standard factory with component
+expansion ON (sub-fields, scales, offsets, accumulated components) — as `FitModel/DecoderApiDefault.lean` models it: the
+decoder-API model (C) with the regenerated standard factory and expansion off, every decoded message then expanded by C05's
+model of the tail of `decodeFields` over the REAL component / sub-field graph, the accumulator and the stored messages living
+for one sequence. For every byte stream, every option set (checksum, broadcast-only, listeners) and every history outside the
+class of KF-C07-4: every result of the decoder object — the FIT with every message and every EXPANDED field, headers, file
+ids, errors, and the listener calls with the expanded messages — is the same expansion applied to what the specification
+computes with new decoders. (What expansion adds is a function of the sequence's own messages: the expansion state is new
+after everything that ends a sequence. Termination of the expansion over the real graph: `C05_profile_depth`.) -/
+theorem C07_default_config_partial (o : Opts) (bytes : List Nat) (ops : List Op) (hb : Small bytes)
+    (hops : ∀ o' b, Op.reset o' b ∈ ops → Small b)
+    (hno : NoOverrun (Default.inner o) bytes (ops.map (Default.innerOp o))) :
+    ∀ y ∈ (Default.run o bytes ops).zip (Default.spec o bytes ops), ∀ r, y.2 = some r → y.1 = some r := by
+  have hops' : ∀ op ∈ ops.map (Default.innerOp o), OpSmall op := by
+    intro op hop
+    obtain ⟨op0, h0, rfl⟩ := List.mem_map.mp hop
+    cases op0 with
+    | reset o' b => exact ⟨hops o' b h0, Default.facOK_std⟩
+    | _ => trivial
+  exact Default.walk_agree o _ _ _ {} (C07_history_indep_partial (Default.inner o) bytes _ hb Default.facOK_std hops' hno)
+
+/-- non-vacuity: `P ++ S` under the default configuration, peeked, discarded, decoded -/
+example : NoOverrun (Default.inner {}) (P ++ S) ([Op.peekFileId, .discard, .decode].map (Default.innerOp {})) := by decide +kernel
 
 end Fit.C07
